@@ -66,6 +66,23 @@ static void one(const uint8_t *ad, size_t adlen, const uint8_t *m, size_t mlen, 
         hx_free(c);
     }
     }
+    /* documented: a NULL key / NULL nonce given to the incremental init or reinit means all-zero; on a used object nothing of the old key or nonce may survive */
+    {
+        static const uint8_t zk[20], zn[16]; uint8_t *c = hx_buf(clen), *e0 = hx_buf(clen); api_inc_state st;
+        for (int v = 0; v < 3; v++) {
+            const uint8_t *kk = (v & 1) ? key : 0, *nn = (v & 2) ? nonce : 0;      /* v=0: both NULL, 1: NULL nonce, 2: NULL key */
+            ref_aead_encrypt(alg, kk ? kk : zk, nn ? nn : zn, ad, adlen, m, mlen, e0);
+            memset(&st, 0xEE, sizeof st);
+            if ((adlen + mlen + v) & 1) { api_inc_init[alg](&st, nonce, key); api_inc_start[alg](&st, ad, adlen); api_inc_enc[alg](&st, m, c, mlen); api_inc_reinit[alg](&st, nn, kk); }
+            else api_inc_init[alg](&st, nn, kk);
+            api_inc_start[alg](&st, adlen ? ad : 0, adlen); api_inc_enc[alg](&st, m, c, mlen); api_inc_encfin[alg](&st, c + mlen); api_inc_free[alg](&st);
+            hx_stat("evaluations", 1);
+            if (memcmp(c, e0, clen) || !hx_buf_ok(c, clen))
+                hx_fail("encrypt:incremental-null-key-or-nonce", "alg=%s %s with %s differs from the specification under the all-zero value adlen=%zu mlen=%zu pat=%s", api_alg_name[alg],
+                        ((adlen + mlen + v) & 1) ? "reinit of a used object" : "init of an object on dirty storage", v == 0 ? "NULL key and NULL nonce" : v == 1 ? "NULL nonce" : "NULL key", adlen, mlen, pat);
+        }
+        hx_free(c); hx_free(e0);
+    }
     if (adlen + mlen > 0) hx_stat("nontrivial_shapes", 1);
     hx_free(exp);
 }
